@@ -422,6 +422,10 @@ TIES = {
     'Trace': dict(props=['C17'], gen=['TraceAgentCtor', 'TraceAgentDtor', 'TraceParams', 'TraceReturn', 'TraceException'],
                   theorems=['trace_agent_ctor_tie', 'trace_agent_dtor_tie', 'trace_params_tie', 'trace_return_tie', 'trace_exception_tie', 'trace_record_tie'],
                   cxx='class trace_agent: constructor, destructor, trace_params, trace_return, trace_exception (mock.hpp)'),
+    'PrintDispatch': dict(props=['C18'], gen=['PrintTop', 'PrinterDefault', 'StreamerStreamable', 'StreamerPair', 'StreamerTuple', 'StreamerCollection', 'StreamerOpaque'],
+                          theorems=['print_dispatch', 'print_null_tie', 'print_null_model', 'streamer_streamable_tie', 'streamer_opaque_tie', 'streamer_pair_tie',
+                                    'streamer_collection_eq', 'streamer_tuple_eq', 'streamer_collection_tie', 'streamer_tuple_tie'],
+                          cxx='print(os, t), printer<T>::print, streamer<>::print for streamable values, pairs, tuples, collections, opaque objects (mock.hpp)'),
     'Ring': dict(props=['C14'], gen=['RingUnlink', 'RingElemDtor', 'RingMoveAssign', 'RingPushFront', 'RingPushBack', 'RingBegin', 'RingEnd',
                                     'RingIterIncr', 'RingIsLinked', 'RingListDtor'],
                  theorems=['ring_unlink_tie', 'ring_elem_dtor_tie', 'ring_move_assign_tie', 'ring_push_front_tie', 'ring_push_back_tie',
